@@ -112,7 +112,7 @@ pub struct Exec {
     await_of: HashMap<u64, u64>,
 }
 
-fn class_of(dbg: &str) -> String {
+pub fn class_of(dbg: &str) -> String {
     dbg.split(|c: char| c == '(' || c == ' ' || c == '{').next().unwrap_or("").to_string()
 }
 fn err_json<E: std::fmt::Debug>(e: &E) -> J {
@@ -130,8 +130,17 @@ pub fn build_message(m: u32, len: usize, shape: &str) -> Message<Body<Value>> {
     let mut msg: Message<Body<Value>> = match shape {
         "value" => Message::builder().body(Body::Value(fe2o3_amqp_types::messaging::AmqpValue(Value::Binary(body)))).build(),
         "data2" => { let p = pattern(m, len); let h = len / 2; Message::builder().body(Body::Data(vec![fe2o3_amqp_types::messaging::Data(Binary::from(p[..h].to_vec())), fe2o3_amqp_types::messaging::Data(Binary::from(p[h..].to_vec()))].into())).build() }
+        "seq" => Message::builder().body(Body::Sequence(vec![fe2o3_amqp_types::messaging::AmqpSequence(vec![Value::Binary(body), Value::Uint(m), Value::String("x".into())])].into())).build(),
         _ => Message::builder().body(Body::Data(vec![fe2o3_amqp_types::messaging::Data(body)].into())).build(),
     };
+    if shape == "all" {
+        use fe2o3_amqp_types::messaging::{ApplicationProperties, DeliveryAnnotations, Footer, MessageAnnotations};
+        msg.header = Some(Header { durable: true, priority: 7.into(), ttl: Some(1000), first_acquirer: true, delivery_count: 3 });
+        msg.delivery_annotations = Some(DeliveryAnnotations::builder().insert("x-da", m).build());
+        msg.message_annotations = Some(MessageAnnotations::builder().insert("x-ma", "v").build());
+        msg.application_properties = Some(ApplicationProperties::builder().insert("k", len as u64).insert("s", "t").build());
+        msg.footer = Some(Footer::builder().insert("x-f", true).build());
+    }
     msg.properties = Some(Properties::builder().message_id(m as u64).build());
     if shape == "full" || shape == "value" {
         msg.header = Some(Header { durable: true, ..Default::default() });
